@@ -152,3 +152,118 @@ Example C13_nonvacuous_checker :
   c13_checkb 0 ex_net [0; 1]%nat (run_calls ex_net [0; 1]%nat [(0, 7)]%nat 3)
              (xkeys ex_net [0; 1]%nat) (plain_ejk (edges ex_net)) = true.
 Proof. vm_compute. reflexivity. Qed.
+
+(* ================= growth: annotations with MORE components than requested names =================
+   (proofs in Proofs/MixingGenP.v)  The extractor may be asked for a prefix of the network's
+   topologies: the annotations then have T > length names components, and the matrices of the
+   requested topologies are still keyed by the FULL excess tuples (C13_entry .. C13_keys above hold
+   for every T with [valid_net T g]).  The wire checker c13_check now runs [c13_checkb_gen], which
+   takes T from the annotations ([ann_len]) instead of from the name list. *)
+From Coq Require Import Lia.
+From GV Require Import Proofs.MixingGenP.
+
+(* the generalised checker is equivalent to the Prop-level specification for tuple length T ... *)
+Theorem C13_checker_T_iff :
+  forall eps T g names calls xk plain,
+    c13_checkb_T eps T g names calls xk plain = true <-> C13_spec_T eps T g names calls xk plain.
+Proof. exact c13_checkb_T_iff. Qed.
+Print Assumptions C13_checker_T_iff.
+
+(* ... the wire checker decides: the observation meets the specification for the annotations' length *)
+Theorem C13_checker_gen_iff :
+  forall eps g names calls xk plain,
+    c13_checkb_gen eps g names calls xk plain = true <->
+    C13_spec_T eps (ann_len g names) g names calls xk plain.
+Proof. exact c13_checkb_gen_iff. Qed.
+Print Assumptions C13_checker_gen_iff.
+
+(* ... equivalently: for SOME tuple length T >= number of names (there is at most one as soon as the
+   network has a vertex: C13_ann_len_is_the_length) *)
+Theorem C13_checker_gen_iff_ex :
+  forall eps g names calls xk plain,
+    c13_checkb_gen eps g names calls xk plain = true <-> exists T, C13_spec_T eps T g names calls xk plain.
+Proof. exact c13_checkb_gen_iff_ex. Qed.
+Print Assumptions C13_checker_gen_iff_ex.
+
+Theorem C13_ann_len_is_the_length :
+  forall T g names, valid_net T g -> jds g <> [] -> ann_len g names = T.
+Proof. exact ann_len_valid. Qed.
+Print Assumptions C13_ann_len_is_the_length.
+
+(* the specification for T = number of names is the old one, and on the old domain (annotations of
+   exactly that many components) the new checker IS the old checker; it accepts whatever the old accepted *)
+Theorem C13_spec_T_is_old_spec :
+  forall eps g names calls xk plain,
+    C13_spec_T eps (length names) g names calls xk plain <-> C13_spec eps g names calls xk plain.
+Proof. exact C13_spec_T_old. Qed.
+Print Assumptions C13_spec_T_is_old_spec.
+
+Theorem C13_checker_gen_old_domain :
+  forall eps g names calls xk plain, valid_netb (length names) g = true ->
+    c13_checkb_gen eps g names calls xk plain = c13_checkb eps g names calls xk plain.
+Proof. exact c13_checkb_gen_old_domain. Qed.
+Print Assumptions C13_checker_gen_old_domain.
+
+Theorem C13_checker_gen_extends :
+  forall eps g names calls xk plain,
+    c13_checkb eps g names calls xk plain = true -> c13_checkb_gen eps g names calls xk plain = true.
+Proof. exact c13_checkb_gen_extends. Qed.
+Print Assumptions C13_checker_gen_extends.
+
+(* the model satisfies the specification exactly on the whole extended domain: every T >= number of
+   names, all initial counter states, all numbers of calls; and passes the wire checker *)
+Theorem C13_model_satisfies_spec_T :
+  forall g names c n T, valid_net T g -> (length names <= T)%nat -> NoDup names -> (0 < n)%nat ->
+    C13_spec_T 0 T g names (run_calls g names c n) (xkeys g names) (plain_ejk (edges g)).
+Proof. exact model_satisfies_C13_T. Qed.
+Print Assumptions C13_model_satisfies_spec_T.
+
+Theorem C13_model_passes_checker_gen :
+  forall g names c n T, valid_net T g -> (length names <= T)%nat -> NoDup names -> (0 < n)%nat ->
+    c13_checkb_gen 0 g names (run_calls g names c n) (xkeys g names) (plain_ejk (edges g)) = true.
+Proof. exact model_passes_checker_gen. Qed.
+Print Assumptions C13_model_passes_checker_gen.
+
+(* and the modelled extractor does not raise IndexError there *)
+Theorem C13_no_index_error :
+  forall T g names, valid_net T g -> (length names <= T)%nat -> short_annotation g names = false.
+Proof. exact short_annotation_false. Qed.
+Print Assumptions C13_no_index_error.
+
+(* ---------- non-vacuity ---------- *)
+(* the network of ex_net with a third annotation component (a third topology, one edge 2-4 of it);
+   the extractor is asked for the first two topologies only *)
+Definition ex_net3 : net :=
+  mk_net [[1; 1; 2]; [1; 1; 0]; [0; 1; 1]; [1; 0; 0]; [1; 0; 1]]%Z
+         [(0, 1, 1); (1, 2, 1); (0, 2, 1); (0, 3, 0); (1, 4, 0); (2, 4, 2)]%nat.
+(* what an extractor would see that drops the excess component (the zip truncation of seeded change C13-r4-3) *)
+Definition ex_net3_truncated : net :=
+  mk_net (map (firstn 2) (jds ex_net3)) (edges ex_net3).
+
+Example C13_gen_nonvacuous_valid :
+  valid_net 3 ex_net3 /\ (length [0; 1]%nat <= 3)%nat /\ ann_len ex_net3 [0; 1]%nat = 3%nat /\
+  valid_netb (length [0; 1]%nat) ex_net3 = false.
+Proof. split; [apply valid_netb_spec; reflexivity|]. split; [cbn; lia|]. split; reflexivity. Qed.
+
+(* keys have 2 * 3 components although two topologies were requested *)
+Example C13_gen_nonvacuous_values :
+  map (fun nm => (fst nm, map (fun kv => (fst kv, Qred (snd kv))) (snd nm)))
+      (nth 1 (run_calls ex_net3 [0; 1]%nat [(0, 7)]%nat 2) [])
+  = [(0%nat, [([0; 1; 2; 0; 0; 0], 1 # 4); ([0; 0; 0; 0; 1; 2], 1 # 4);
+              ([0; 1; 0; 0; 0; 1], 1 # 4); ([0; 0; 1; 0; 1; 0], 1 # 4)]%Z);
+     (1%nat, [([1; 0; 2; 1; 0; 0], 1 # 6); ([1; 0; 0; 1; 0; 2], 1 # 6);
+              ([1; 0; 0; 0; 0; 1], 1 # 6); ([0; 0; 1; 1; 0; 0], 1 # 6);
+              ([1; 0; 2; 0; 0; 1], 1 # 6); ([0; 0; 1; 1; 0; 2], 1 # 6)]%Z)].
+Proof. vm_compute. reflexivity. Qed.
+
+Example C13_gen_nonvacuous_checker :
+  c13_checkb_gen 0 ex_net3 [0; 1]%nat (run_calls ex_net3 [0; 1]%nat [(0, 7)]%nat 3)
+                 (xkeys ex_net3 [0; 1]%nat) (plain_ejk (edges ex_net3)) = true /\
+  (* the old checker has nothing to say here (outside its domain) *)
+  c13_checkb 0 ex_net3 [0; 1]%nat (run_calls ex_net3 [0; 1]%nat [(0, 7)]%nat 3)
+             (xkeys ex_net3 [0; 1]%nat) (plain_ejk (edges ex_net3)) = false /\
+  (* matrices keyed by truncated excess tuples (symmetric, summing to 1) are rejected *)
+  c13_checkb_gen 0 ex_net3 [0; 1]%nat (run_calls ex_net3_truncated [0; 1]%nat [] 2)
+                 (xkeys ex_net3 [0; 1]%nat) (plain_ejk (edges ex_net3)) = false /\
+  qsum (dvals (snd (nth 0 (nth 0 (run_calls ex_net3_truncated [0; 1]%nat [] 2) []) (0%nat, [])))) == 1.
+Proof. vm_compute. repeat split; reflexivity. Qed.
